@@ -56,3 +56,13 @@ package base
 //@ modifies models.fields
 //@ ensures GetText(ctx) in models.fields
 //@ ensures forall s string :: {s in models.fields} (s in old(models.fields)) ==> (s in models.fields)
+
+// a name used as the receiver of a static call, a method reference (Objects::nonNull) or a constant access: whenever the
+// left operand of an expression is a capitalised simple name it is recorded, whatever operator follows
+//@ func isUppercaseText
+//@ pure
+//@ requires len(text) >= 1
+//@ method JavaRefactorListener.EnterExpression
+//@ modifies models.fields
+//@ ensures Count(ctx, "expression") >= 1 && isUppercaseText(GetText(ChildN(ctx, "expression", 0))) ==> (GetText(ChildN(ctx, "expression", 0)) in models.fields)
+//@ ensures forall s string :: {s in models.fields} (s in old(models.fields)) ==> (s in models.fields)
